@@ -48,7 +48,10 @@ class PlanApp(object):
         for g in range(0 if nogaps else shape.get("pregap", 0)):
             yield b""
         if kind == "error":
-            raise httping.HTTPError(int(shape["status"].split()[0]), title=shape.get("title", "T%d" % i), detail=shape.get("detail", "D%d" % i))
+            from ioflo.aid.odicting import odict
+            raise httping.HTTPError(int(shape["status"].split()[0]), reason=shape.get("reason", ""), title=shape.get("title", "T%d" % i),
+                                    detail=shape.get("detail", "D%d" % i), fault=shape.get("fault"),
+                                    headers=odict((str(k), str(v)) for k, v in shape["eheaders"]) if shape.get("eheaders") else None)
         if kind in ("fixed", "empty"):
             headers.append(("Content-Length", str(sum(len(p) for p in pieces))))
         if not any(k.lower() == "content-type" for k, v in headers):
